@@ -51,5 +51,6 @@ RWMutex clean
 RWMutexMissingRLock race
 Timers clean
 OnceAtomic clean
+OsSentinels clean
 LIST
 [ $fail = 0 ] && echo "SELFTEST OK" || { echo "SELFTEST FAILED"; exit 1; }
